@@ -273,6 +273,15 @@ def run(ctx):
                    'with overwrite set, before the destination is opened its path is replaced by a directory derived from the source path (the path in `to` is ignored, as documented): '
                    'a database living at to.path is otherwise merged into the migrated column and stripped of its files', w is None,
                    '' if w is None else 'destination opened at the caller\'s path: ' + lib.short_path(mg, w))
+            # 7b. the private directory is the staging database of this run only: what an interrupted earlier run left in it (a
+            # populated copy of the column, from before later changes to the source) must be gone before the walk commits into
+            # it - otherwise every count is added to the leftover's and removed keys come back (seed C20-staging-not-cleared)
+            clears = [bi for bi, t in mg.calls() if bi in mg.normal_blocks() and any(re.search(r'remove_private_dir$|std::fs::remove_dir_all$', n_) for n_ in call_names(t))]
+            first_open = [o for o in oc if mg.find_path([0], {o}, removed=set(oc) - {o}, removed_edges=frozenset(rem)) is not None]
+            w2 = mg.find_path([0], set(first_open), removed=set(clears), removed_edges=frozenset(rem)) if clears and first_open else ['?']
+            ctx.ob('7b in-place-staging-starts-empty', 'K2-order', mg.path,
+                   'with overwrite set, the private staging directory is removed before the staging database is opened for the first time (a leftover of an interrupted run is not merged into this one)',
+                   w2 is None, 'no removal of the private directory before the first open of the destination' if w2 == ['?'] else ('' if w2 is None else 'destination opened without clearing: ' + lib.short_path(mg, w2)))
     # 5n. what Db::close reports includes the failure of the final drain: commits still queued when the log worker leaves are processed by
     # kill_logs on the closing thread; its error must reach the slot close() reads (F62)
     di = ctx.body('db::Db::drop_inner')
